@@ -63,11 +63,11 @@ theorem unroll_sem (c uc : Circuit) (n : Nat) (stateIO : List (Name × Name)) (p
 
 /-- the io map has one entry per io node with `n` names each, and the free inputs of the unrolled circuit are
     exactly the step-0 state inputs and the per-step copies of the other inputs.
-    `hki` (added, see REPORT.md / `CG/Proofs/UnrollCex.lean`): no state output is itself an input node (an input marked
-    as output); without it the characterisation of the inputs is false, because the io node of such a state output
-    is created as a `buf` although it is the per-step copy of a non-state input. -/
+    This includes a state output that is itself an input node (an input marked as output): since the library fix K33
+    only state *inputs* are forced to buffers, so its per-step copies stay inputs (regression example in
+    `CG/Proofs/UnrollCex.lean`); the former extra hypothesis `hki` is no longer needed. -/
 theorem unroll_inputs (c uc : Circuit) (n : Nat) (stateIO : List (Name × Name)) (pfx : String) (ord : Ord)
-    (hord : OrdOK ord) (hc : Good c) (hp : Pairing c stateIO) (hki : ∀ p ∈ stateIO, p.1 ∉ c.inputs)
+    (hord : OrdOK ord) (hc : Good c) (hp : Pairing c stateIO)
     (ioMap : List (Name × List Name))
     (h : Tx.unroll c n stateIO pfx ord = .ok (uc, ioMap)) :
     (ioMap.map (·.1)).Perm c.io ∧ (∀ p ∈ ioMap, p.2.length = n) ∧
@@ -94,7 +94,7 @@ theorem unroll_inputs (c uc : Circuit) (n : Nat) (stateIO : List (Name × Name))
     obtain ⟨x, _, rfl⟩ := List.mem_map.1 hp'
     simp
   · intro y
-    refine (I.inputs_iff y).trans ((Unroll.inputs_target C hki hn y).trans ?_)
+    refine (I.inputs_iff y).trans ((Unroll.inputs_target C hn y).trans ?_)
     constructor
     · rintro (⟨p, hp', e⟩ | ⟨x, hx, hne, t, ht, e⟩)
       · exact Or.inl ⟨p, hp', by rw [hname _ (C.ioIn _ (C.valsIn p hp')) 0 hn]; exact e⟩
